@@ -24,9 +24,9 @@ def gen_cases(tier, seed):
     rng = rng_for("C06cases", seed)
     cases = []
     rows = C.pairwise(seed=seed)
-    nrand = 900 if tier == "quick" else 24000
+    nrand = 900 if tier == "quick" else 9000
     k = 0
-    for rep in range(2 if tier == "quick" else 6):
+    for rep in range(2 if tier == "quick" else 4):
         for row in rows:
             fam = FAMS[k % len(FAMS)]
             cases.append(_case(rng, fam, [seed, k], dict(row)))
